@@ -33,7 +33,22 @@ def pool(tier):
     # two statements in one program that differ in one number (hash / int-float coincidences)
     pairs = [p for p in literal_pair_programs(tier) if U.valid(p)]
     out += pairs[:: max(1, len(pairs) // (60 if tier == "quick" else 300))]
-    return out
+    # the same statement text in a macro whose parameter shadows a header name and in the main body, in both textual
+    # orders (C07's probe programs): such circuits compare equal only if they also mean the same
+    from checks.c07 import all_programs as scope_programs
+
+    sp = list(scope_programs("quick"))
+    out += sp[:: max(1, len(sp) // (240 if tier == "quick" else 600))]
+    # second leaf menu of the universe
+    xp = list(U.pool(U.extra_specs("quick")))
+    out += xp[:: max(1, len(xp) // (100 if tier == "quick" else 300))]
+    seen, res = set(), []
+    for q in out:
+        t = render.text(q)
+        if t not in seen:
+            seen.add(t)
+            res.append(q)
+    return res
 
 
 _POOL = {}
